@@ -125,8 +125,8 @@ CLAUSES = ["distribute_power_completes", "result_is_success_or_partial_failure",
            "success_iff_no_call_failed"]
 
 
-def eval_battery(groups, power, outcomes, not_working=frozenset(), no_data=frozenset()):
-    r = mgr.run_battery(groups, power, outcomes, not_working=frozenset(not_working), no_data=frozenset(no_data))
+def eval_battery(groups, power, outcomes, not_working=frozenset(), no_data=frozenset(), adjust_power=True):
+    r = mgr.run_battery(groups, power, outcomes, adjust_power=adjust_power, not_working=frozenset(not_working), no_data=frozenset(no_data))
     inv_to_comps = {}
     for bats, invs in r["layout"]:
         for i in invs:
@@ -158,14 +158,21 @@ def shard_fn(shard) -> Acc:
         vary = inv_ids[:maxn]
     else:
         vary = inv_ids
-    for power in reqs:
-        for vec in itertools.product(mgr.OUTCOMES, repeat=len(vary)):
+    strict = []
+    if kind == "battery":
+        # adjust_power=False: only requests inside the advertised bounds are processed at all
+        for p_ in reqs:
+            rs_ = [dist.ref_group(g, 1 if p_ > 0 else -1) for g in live]
+            if sum(r_["adv_excl"] for r_ in rs_) - 1e-9 <= abs(p_) <= sum(r_["adv_incl"] for r_ in rs_) + 1e-9:
+                strict.append(p_)
+    for power, adjust in [(p_, True) for p_ in reqs] + [(p_, False) for p_ in strict]:
+        for vec in itertools.product(mgr.OUTCOMES if adjust else ("ok", "client", "hang"), repeat=len(vary)):
             outcomes = dict(zip(vary, vec))
             if kind == "battery":
-                r, viol = eval_battery(groups, power, outcomes, not_working, no_data)
+                r, viol = eval_battery(groups, power, outcomes, not_working, no_data, adjust)
                 case = {"kind": kind, "config": name, "groups": [g.describe() for g in groups], "power": power,
                         "outcomes": {str(k): v for k, v in outcomes.items()}, "not_working": sorted(not_working),
-                        "no_data": sorted(no_data)}
+                        "no_data": sorted(no_data), "adjust_power": adjust}
             else:
                 r, viol = eval_pv(invs, power, outcomes)
                 case = {"kind": kind, "config": name, "inverters": invs, "power": power,
@@ -179,7 +186,7 @@ def shard_fn(shard) -> Acc:
             for c in CLAUSES:
                 acc.clauses[c] += 1
             acc.outcome(f"{kind} {type(r['result']).__name__} failed_calls={nfail}")
-            acc.state((kind, name, power, vec))
+            acc.state((kind, name, power, vec, adjust))
             if acc.evaluations % 400 == 1:
                 acc.sample({"case": case, "set_power_calls": r["calls"], "result": repr(r["result"])[:400]})
             for clause, detail in viol:
@@ -198,7 +205,8 @@ def run(tier: str, seed: int, workers: int):
     meta = {
         "rule": "for each configuration (battery: topologies incl. two inverters per battery, two batteries per inverter, "
         "a full group, exclusion bounds, a requested group that is reported as not working or has not sent data yet; PV: 1-4 inverters with different bounds) and each request from a derived menu "
-        "(both signs, incl. surplus over the inclusion bound), ALL 6^n outcome vectors (ok / OperationOutOfRange / "
+        "(both signs, incl. surplus over the inclusion bound; battery requests inside the advertised bounds also with adjust_power=False "
+        "over ok / client error / timeout), ALL 6^n outcome vectors (ok / OperationOutOfRange / "
         "ApiClientError / RuntimeError / no reply until timeout / success after 5.2 s with a request timeout of 5.5 s) over the set_power calls; each vector is run once on the "
         "real manager over the virtual loop; non-trivial = at least one failing call among >= 2 calls",
         "assumptions": [
@@ -217,7 +225,8 @@ def replay(case: dict):
     outcomes = {int(k): v for k, v in case["outcomes"].items()}
     if case["kind"] == "battery":
         groups = [dist.group_from_json(g) for g in case["groups"]]
-        r, viol = eval_battery(groups, case["power"], outcomes, case.get("not_working", ()), case.get("no_data", ()))
+        r, viol = eval_battery(groups, case["power"], outcomes, case.get("not_working", ()), case.get("no_data", ()),
+                               case.get("adjust_power", True))
     else:
         r, viol = eval_pv([tuple(x) for x in case["inverters"]], case["power"], outcomes)
     return [(c, dict(d, calls=r["calls"], result=repr(r["result"])[:300])) for c, d in viol]
